@@ -1,6 +1,9 @@
 CONSTANTS
   Dev = {}
   MaxRecs = 4
+  MaxEdits = 0
+  EditRecs = 0
+  EditAnywhere = FALSE
   Mutant = TRUE
 SPECIFICATION Spec
 INVARIANT HandedIsSignedData
